@@ -13,7 +13,12 @@ TAKE = ["jnp.take contract: out[k] = a[idx[k] mod n] for -n <= idx[k] < n"]
 def _mk_slice_factor(kind, R):
     def ob(w):
         xp = w.xp
-        f, fv = gen_factor(w, kind, "f", R, "D")
+        if kind == "diag-pdf":
+            from .common import pdf_view
+            f, par_ = SP.gen_pdf(w, "f", R, "D", diag=True)
+            fv = pdf_view(w, par_, "D")
+        else:
+            f, fv = gen_factor(w, kind, "f", R, "D")
         rho = w.index_map("rho", "Rn", R if R != 1 else None) if R != 1 else w.pick("r0")
         x = w.arr("x", "N", "D")
         g = f.slice(rho)                                                 # REAL
@@ -94,7 +99,9 @@ def _mk_cond_on_x(kind):
         cs = c.slice(rho)                                                # REAL
         wf_conditional(w, "sliced", cs)
         full = c.condition_on_x(x)                                       # REAL, layout r*N+n
-        part = cs.condition_on_x(x)
+        part = cs(x)                                                     # REAL: __call__ == condition_on_x
+        w.equal("__call__=condition_on_x/mu", c(x).mu, full.mu)
+        w.equal("__call__=condition_on_x/Sigma", c(x).Sigma, full.Sigma)
         n, rn = w.size("N"), w.size("Rn")
         lhs = xp.reshape(part.evaluate_ln(y), (rn, n, w.size("Ny")))
         rhs = xp.take(xp.reshape(full.evaluate_ln(y), (w.size("R"), n, w.size("Ny"))), rho, axis=0)
@@ -177,9 +184,9 @@ def _mk_update(diag):
 
 
 def _register():
-    for kind in ("general", "rank-one", "linear", "constant", "measure", "measure+cache", "diag-measure", "diag-measure+cache", "pdf"):
+    for kind in ("general", "rank-one", "linear", "constant", "measure", "measure+cache", "diag-measure", "diag-measure+cache", "pdf", "diag-pdf"):
         for R in ("R", 1):
-            cls = FACTOR_CLS[kind.replace("+cache", "")]
+            cls = FACTOR_CLS.get(kind.replace("+cache", ""), "pdf.GaussianDiagPDF")
             REG.ob(f"slice/{kind}/R={R}", sorts=(["R"] if R != 1 else []) + ["Rn", "D", "N"] if R != 1 else ["D", "N"],
                    funcs=[f"{cls}.slice"], axioms=TAKE)(_mk_slice_factor(kind, R))
     for ukind in ("measure", "measure+cache", "pdf"):
@@ -202,7 +209,8 @@ def _register():
     for kind in ("full", "diag", "identity", "identity-diag"):
         cls = SP.COND_CLS[kind]
         REG.ob(f"{cls}.condition_on_x", sorts=["R", "Rn", "N", "Ny", "Dy"] + ([] if kind.startswith("identity") else ["Dx"]),
-               funcs=[f"conditional.{cls}.condition_on_x", f"conditional.{cls}.slice", f"conditional.{cls}.get_conditional_mu"],
+               funcs=[f"conditional.{cls}.condition_on_x", f"conditional.{cls}.slice", f"conditional.{cls}.get_conditional_mu",
+                      f"conditional.{cls}.__call__"] + (["conditional.ConditionalGaussianPDF.__call__"] if kind == "diag" else []),
                axioms=TAKE)(_mk_cond_on_x(kind))
         for which in ("joint", "marginal", "conditional"):
             for (Rc, Rx) in LAYOUTS[1:]:
